@@ -86,6 +86,44 @@ def term(scn, inp, impl):
             else:
                 parts.append('src_check "expectedResponseLenth" [VN %d; VN %d] (Ok [VN %d; VN 0])' % (fc, b2, int(o)))
         return "forallb (fun b => b) [%s]" % "; ".join(parts)
+    if scn in ("cutcc", "cc"):
+        return xport_term(scn, t, impl)
+    return None
+
+
+def nlist(bs):
+    return "[%s]" % "; ".join("%d" % b for b in bs)
+
+
+XPORT_CLASS = {"timeout": 1, "io": 2, "protocol": 3, "badcrc": 4, "short": 5}
+
+
+def xport_term(scn, t, impl):
+    """cutcc: fr unit e w end k stream op... -> result writes consumed   (the call sees stream[:k])
+       cc   : fr unit e w end chunks op...  -> result writes consumed   (the chunks are concatenated)"""
+    fr, end = t[0], t[4]
+    if scn == "cutcc":
+        stream = bytes.fromhex(t[6])[:int(t[5])]
+    else:
+        stream = bytes.fromhex("".join(x for x in t[5].split(",") if x != "-")) if t[5] != "-" else b""
+    res, writes, consumed = impl.split(" ")
+    if writes == "-" or "," in writes or res == "panic":
+        return None          # nothing sent (refused locally), or more than one write
+    w = bytes.fromhex(writes)
+    cls = 0
+    if res.startswith("err:"):
+        cls = XPORT_CLASS.get(res[4:], 0)
+    e = {"c": "Wire.Closed", "r": "Wire.Reset", "s": "Wire.Stall"}[end]
+    if fr == "m":
+        if len(w) < 8:
+            return None
+        txn = w[0] * 256 + w[1]
+        return "xport_tcp %s %s %d %d %d %s %s %d %d" % (e, nlist(stream), (txn - 1) % 65536, w[6], w[7], nlist(w[8:]),
+                                                         nlist(w), int(consumed), cls)
+    if fr == "r":
+        if len(w) < 4:
+            return None
+        return "xport_rtu %s %s %d %d %s %s %d %d" % (e, nlist(stream), w[0], w[1], nlist(w[2:-2]), nlist(w), int(consumed), cls)
     return None
 
 
@@ -125,7 +163,8 @@ def replay_src(scenarios, per_scn=40):
         vf = os.path.join(tmp, "SrcReplay.v")
         with open(vf, "w") as fh:
             fh.write("From Coq Require Import List NArith String Bool.\nImport ListNotations.\n"
-                     "From Modbus Require Import Model.GoLite Gen.SrcPure Replay.SrcReplayLib.\n"
+                     "From Modbus Require Import Model.GoLite Gen.SrcPure Replay.SrcReplayLib Replay.SrcReplayXport.\n"
+                     "From Modbus Require Model.Wire.\n"
                      "From Modbus Require Proofs.SrcMiscP.\n"
                      "Open Scope string_scope.\nOpen Scope N_scope.\n"
                      "Definition cases : list bool := [\n  " + ";\n  ".join(terms) + "].\n"
